@@ -218,6 +218,35 @@ CHECKS = {
         "inside write_soon/send_continue.",
         "DESIGN.md 4 C12",
     ),
+    "C09": (
+        "sim",
+        "fault_enumeration",
+        "runtime monitoring with fault injection: an exception at every step index of every base program x exception "
+        "class x configuration, and a client disconnect at every server send(); monitors on wire bytes, close() counts, "
+        "file closes, thread liveness and a probe connection",
+        "72 DSL programs (all return kinds, both start_response timings, small and multi-send bodies, close present / "
+        "absent / raising) are run in the real threaded server with an exception injected at each step index (call, after "
+        "start_response, before/after each write or chunk, close) for Exception / OSError / BaseException x "
+        "expose_tracebacks x log_socket_errors, and with RST / full close injected at each send() index of the fault-free "
+        "run. Oracle: one complete 500 then close before output, silent close after; marker text only with "
+        "expose_tracebacks; close() exactly once; wrapped file explicitly closed; workers and loop alive; probe served. "
+        "Complete enumeration of the placements (exhaustive).",
+        "Trusts apps.intended() for before/after-output; the schedule dimension is only sampled here.",
+        "DESIGN.md 4 C09",
+    ),
+    "C14": (
+        "sim",
+        "exploration",
+        "runtime monitoring under a controlled scheduler: offline conservation / exactly-once / FIFO checker over the "
+        "recorded history of the real ThreadedTaskDispatcher (recording deque, uniquely numbered tasks)",
+        "Submitters, workers, set_thread_count up/down and shutdown(cancel_pending) interleave under random-walk, PCT "
+        "and complete single-pre-emption schedules with the 5 s shutdown timeout on the virtual clock; task bodies submit "
+        "follow-ups, block on events or raise (incl. BaseException). At the end every task submitted before shutdown is in "
+        "exactly one of serviced-once / cancelled-once / still-queued (empty with cancel_pending), pops equal appends in "
+        "order, and the worker count matches the last resize / is zero after shutdown.",
+        "Post-shutdown clauses are not judged for histories in which set_thread_count raced with shutdown.",
+        "DESIGN.md 4 C14",
+    ),
 }
 
 PENDING = {}
